@@ -146,11 +146,11 @@ func init() {
 			{Pattern: "parse.NewBinaryWriter", Levels: "S"}, {Pattern: "parse.NewBitmapReader", Levels: "S"}, {Pattern: "parse.NewBitmapWriter", Levels: "S"},
 		},
 		NotDecided: []string{
-			"the io.Reader / io.ReadSeeker / io.ReaderAt back ends against the behavioural contract of IBinaryReader.Bytes (their memory safety is proved; their functional clauses are assumed relative to io contracts)",
+			"for the io.Reader / io.ReadSeeker / io.ReaderAt back ends the behavioural contract of IBinaryReader.Bytes is proved relative to ghost models of the documented io contracts (what Read/ReadAt/Seek deliver) and to the assumption that the length the client stated at construction is the length of the data (the view predicates rrView/rsView/raView, preserved by Bytes but established by no verified constructor)",
 			"WriteUint16/32/64 and WriteInt16/32/64 byte layout (delegated to encoding/binary's AppendByteOrder, an external interface); the 8- and 24-bit writers (signed and unsigned) and all readers, including two's-complement sign extension of ReadInt8/16/24/32/64, are proved",
 			"the operating system (os.File, syscall.Mmap) and the file/mmap constructors",
 		},
-		Technique: "deductive verification: behavioural interface contract for IBinaryReader.Bytes over a ghost content view (proved for the memory and mmap back ends), io.Seeker semantics of Seek, position bookkeeping and sticky first error, fixed-width decoding == sum of content bytes, bit-exact BitmapReader/BitmapWriter contracts; VCs discharged by z3/cvc5",
+		Technique: "deductive verification: behavioural interface contract for IBinaryReader.Bytes over a ghost content view (proved for the memory and mmap back ends, and for the three stream back ends relative to ghost models of io.Reader/io.ReadSeeker/io.ReaderAt), io.Seeker semantics of Seek, position bookkeeping and sticky first error, fixed-width decoding == sum of content bytes, bit-exact BitmapReader/BitmapWriter contracts; VCs discharged by z3/cvc5",
 	})
 	registerProp(&PropSpec{
 		ID: "C20", Title: "Distinct parser instances are independent and safe to use concurrently",
